@@ -9,7 +9,7 @@ import concurrent.futures as cf
 import vlib
 
 LEVEL = 'model_checking'
-PARTS = ['gh', 'gars', 'georef', 'osgb', 'dec']
+PARTS = ['gh', 'gars', 'georef', 'osgb', 'dec', 'sub']
 
 
 def vectors_to_lines(vals):
@@ -24,8 +24,9 @@ def vectors_to_lines(vals):
 
 def run(ctx):
     nb = 8
-    stride = {'gh': 3, 'gars': 5, 'georef': 11, 'osgb': 1, 'dec': 3} if ctx.quick else \
-             {'gh': 1, 'gars': 1, 'georef': 1, 'osgb': 1, 'dec': 1}
+    # 'sub' (single-byte substitutions of valid codes and markers) does not depend on Stride
+    stride = {'gh': 3, 'gars': 5, 'georef': 11, 'osgb': 1, 'dec': 3, 'sub': 1} if ctx.quick else \
+             {'gh': 1, 'gars': 1, 'georef': 1, 'osgb': 1, 'dec': 1, 'sub': 1}
     exe = vlib.build_driver('drv_grid', 'plain')
     exe_san = vlib.build_driver('drv_grid', 'san') if not ctx.quick else None
 
@@ -36,10 +37,14 @@ def run(ctx):
         return ctx.generate('MC_GridCodes', cfg, workers=6 if ctx.quick else 16,
                             timeout=3000, heap='6g')
     if ctx.quick:
-        with cf.ThreadPoolExecutor(5) as ex:
+        with cf.ThreadPoolExecutor(len(PARTS)) as ex:
             allv = list(ex.map(gen, PARTS))
     else:
         allv = [gen(p) for p in PARTS]
+    nsub = len(allv[PARTS.index('sub')])
+    if nsub < 10000:
+        raise vlib.FrameworkError('too few substitution vectors emitted: %d' % nsub)
+    ctx.cov['substitution_vectors'] = nsub
     vals = [v for part in allv for v in part]
     if len(vals) < 1000:
         raise vlib.FrameworkError('too few vectors emitted: %d' % len(vals))
@@ -79,7 +84,8 @@ def run(ctx):
 
 
 RULE = ('lattice vectors enumerated by TLC from MC_GridCodes (every cell edge of the lattice at -1/0/+1 ulp, '
-        'longitude wraps, poles, all low-precision codes, malformed codes), each executed on the real '
+        'longitude wraps, poles, all low-precision codes, malformed codes, every single-byte substitution of one '
+        'valid code per scheme and length and of the NaN markers), each executed on the real '
         'library; plus seeded random round-trip records; every trace line validated by TLC against '
         'GridCodes.tla. distinct_nontrivial = number of distinct lattice vectors.')
 TRUSTED = ['TLC', 'GridCodes.tla (written from the headers)', 'drv_grid.cpp quantisation of decoded coordinates']
